@@ -7,7 +7,8 @@ S="$1"
 V="$(cd "$(dirname "$0")" && pwd)"
 export GOFLAGS=-mod=mod GOPROXY=off
 mkdir -p "$S"
-rsync -a --delete --exclude .git --exclude '_seed' /repo/ "$S/repo/"
+REPO="${VERIF_REPO:-/repo}"
+rsync -a --delete --exclude .git --exclude '_seed' "$REPO/" "$S/repo/"
 mkdir -p "$S/repo/simrt"
 cp "$V"/sim/simrt/*.go "$S/repo/simrt/"
 "$V/bin/instrument" -root "$S/repo" -sites "$S/sites.json" >/dev/null
@@ -22,7 +23,18 @@ require github.com/coregx/coregex v0.0.0
 
 replace github.com/coregx/coregex => $S/repo
 EOM
-cp /repo/go.sum "$S/worker/go.sum"
+cp "$REPO/go.sum" "$S/worker/go.sum"
 cd "$S/worker"
 mkdir -p "$S/bin"; go build -tags verif -o "$S/bin/worker" .
 go build -race -tags verif -o "$S/bin/worker-race" .
+if [ -n "$VSIM_NOYIELD" ]; then
+  # allocation measurements need the code as the compiler normally sees it: a copy
+  # with the pool seam only (no yield calls, so inlining and escape analysis are
+  # those of the real tree)
+  rsync -a --delete --exclude .git --exclude '_seed' "$REPO/" "$S/repo-ny/"
+  mkdir -p "$S/repo-ny/simrt"; cp "$V"/sim/simrt/*.go "$S/repo-ny/simrt/"
+  "$V/bin/instrument" -root "$S/repo-ny" -noyield >/dev/null
+  rm -rf "$S/worker-ny"; mkdir -p "$S/worker-ny"; cp "$V"/sim/worker/*.go "$S/worker-ny/"
+  sed "s|$S/repo|$S/repo-ny|" "$S/worker/go.mod" > "$S/worker-ny/go.mod"; cp "$REPO/go.sum" "$S/worker-ny/go.sum"
+  (cd "$S/worker-ny" && go build -tags verif -o "$S/bin/worker-ny" .)
+fi
